@@ -286,7 +286,7 @@ def main():
             level2.append(c)
     level3 = []
     if args.tier == "thorough":
-        for c2 in rng.sample(level2, min(200, len(level2))):
+        for c2 in rng.sample(level2, min(40, len(level2))):
             for nm, c in adapters_for(c2):
                 level3.append(c)
     chosen = [r for r in roots if r.shape != "A" and (args.tier != "quick" or r.src in ("slice", "range_incl"))]
@@ -298,7 +298,12 @@ def main():
         light2 = [c for c in level2 if not any(a in c.names for a in ("flat_map", "flatten"))]
         chosen += rng.sample(light2, 8)   # flat_map/flatten two-adapter chains are too costly to sample blindly in the quick tier
     else:
-        chosen += level1 + level2 + rng.sample(level3, min(150, len(level3)))
+        # thorough: every adapter on the slice, exclusive-range and nested sources with EVERY consumer,
+        # plus seeded samples of two- and three-adapter chains (the full cross product of two-adapter
+        # chains is ~15 000 programs and out of reach)
+        chosen += [c for c in level1 if c.src in ("slice", "range", "nested")]
+        light2 = [c for c in level2 if not any(a in c.names for a in ("flat_map", "flatten"))]
+        chosen += rng.sample(light2, 60) + rng.sample(level2, 10) + rng.sample(level3, min(20, len(level3)))
     # always include the shapes named by the finding and the documented exceptions
     must = [("slice", "take", "rev"), ("slice", "skip", "rev"), ("slice", "zip_slice", "rev"), ("slice", "enumerate", "rev"),
             ("range", "take", "rev"), ("iter_copied", "skip", "rev"), ("slice", "rev", "enumerate"), ("slice", "rev", "take"),
@@ -325,8 +330,10 @@ def main():
         if key in seen or ch.shape == "A":
             continue
         seen.add(key)
-        if args.tier == "quick" and len(ch.names) >= 4:
+        if len(ch.names) >= 4:
             cons = ["fold", "find"]
+        elif args.tier == "thorough" and len(ch.names) == 3:
+            cons = [cons_all[(n + j * 4) % len(cons_all)] for j in range(3)]
         elif args.tier == "quick" and len(ch.names) >= 3:
             cons = [cons_all[(n + j * 5) % len(cons_all)] for j in range(2)] + (["for_each"] if tuple(ch.names) in must else [])
         elif args.tier == "quick" and len(ch.names) == 2:
@@ -336,7 +343,7 @@ def main():
         else:
             cons = cons_all
         for cname in dict.fromkeys(cons):
-            if args.tier == "quick" and cname == "for_each" and ("flat_map" in ch.names or "flatten" in ch.names) and len(ch.names) >= 3:
+            if cname == "for_each" and ("flat_map" in ch.names or "flatten" in ch.names) and len(ch.names) >= 3:
                 cname = "fold"   # for_each into a buffer after flat_map/flatten is too heavy for the quick tier; fold observes the same order
             name = "p%04d" % n
             r = program(fam, name, ch, cname)
